@@ -252,6 +252,11 @@ def run(prop, seed, budget, ctx):
         failures += ff; fallback_n += fn; distinct |= fd
         for k_, v_ in fh.items(): hist[k_] += v_
         for f in ff: hist["P:" + f["why"][0].split(":")[0]] += 1
+        import generics
+        ff, fn, fd, fh = generics.run_part("C04", seed, budget)
+        failures += ff; fallback_n += fn; distinct |= fd
+        for k_, v_ in fh.items(): hist[k_] += v_
+        for f in ff: hist["P:" + f["why"][0].split(":")[0]] += 1
     if prop == "C05":
         from discr import run_discr
         df, dn, dd, dh = run_discr(seed, budget, want=("roundtrip",))
